@@ -30,7 +30,7 @@ def plan(tier):
             'is not longer than the buffer',
             'calls that fail, trap, abort or hang are C13\'s subject and are counted as unsuccessful_call_out_of_scope here',
         ],
-        deadline_s=1500 if t else 280,
+        deadline_s=3000 if t else 900,
     )
 
 
